@@ -35,16 +35,16 @@ def read_all(N, p):
     """what the reader exposes: (good, attrs, [(name, size, data)])"""
     good = N['w_pbo_good'](p) & 0xFFFFFFFF
     if not good: return 0, [], []
-    kb = rt.new_obj(256, 'harness'); vb = rt.new_obj(256, 'harness'); lens = rt.new_obj(16, 'harness')
+    kb = rt.new_obj(1024, 'harness'); vb = rt.new_obj(1024, 'harness'); lens = rt.new_obj(16, 'harness')
     attrs = []
     for i in range(N['w_pbo_nattr'](p)):
-        N['w_pbo_attr'](p, i, kb, vb, 256, lens)
-        attrs.append((rt.read_vals(kb, min(rt.ld(lens, 8), 256)), rt.read_vals(vb, min(rt.ld(lens + 8, 8), 256))))
+        N['w_pbo_attr'](p, i, kb, vb, 1024, lens)
+        attrs.append((rt.read_vals(kb, min(rt.ld(lens, 8), 1024)), rt.read_vals(vb, min(rt.ld(lens + 8, 8), 1024))))
     files = []
-    sz = rt.new_obj(8, 'harness'); nb = rt.new_obj(256, 'harness')
+    sz = rt.new_obj(8, 'harness'); nb = rt.new_obj(1024, 'harness')
     for i in range(N['w_pbo_nfiles'](p)):
-        nl = N['w_pbo_file'](p, i, nb, 256, sz)
-        name = rt.read_vals(nb, min(nl, 256)); size = rt.ld(sz, 8)
+        nl = N['w_pbo_file'](p, i, nb, 1024, sz)
+        name = rt.read_vals(nb, min(nl, 1024)); size = rt.ld(sz, 8)
         if size.__class__ is S:
             # an exposed entry can never be larger than the archive file: decided for all values before the size is enumerated
             if FILE_TOTAL[0] is not None: rt.check(z3.ULE(size.e, z3.BitVecVal(FILE_TOTAL[0], size.w)), 'archive accepted and exposes an entry that is larger than the file (%d bytes)' % FILE_TOTAL[0])
@@ -73,6 +73,11 @@ def wellformed_case(m):
             order = C01.choose('order', 2)
             names = [[b'zz', b'a', b'm.sqf'][i] for i in range(ne)]
             if order: names = names[::-1]
+            # string lengths around the reader's 256-byte scanning chunks: one entry name or one property value is made long (selector decided by the solver)
+            LONG = [0, 255, 256, 257, 511, 512, 513, 600, 769]
+            lsel = C01.choose('long', 2 * len(LONG) - 1)
+            filler = lambda n: (b'dir\\sub_abcdefghijklmnopqrstuvwxyz\\' * 40)[:n - 1] + b'e'
+            if 0 < lsel < len(LONG) and ne > 0: names[ne // 2] = filler(LONG[lsel])
             entries = []
             for i, nm in enumerate(names):
                 size = C01.choose('size%d' % i, 3)
@@ -81,6 +86,7 @@ def wellformed_case(m):
             pv = [rt.fresh_bv('pv%d' % j, 8) for j in range(2)]
             for c in pv: rt.assume(c != 0)
             attrs = [(b'prefix', pv), (b'ver', list(b'1'))]
+            if lsel >= len(LONG): attrs.insert(1, (b'note', list(filler(LONG[lsel - len(LONG) + 1]))))
             # pack with placeholders, then overlay the symbolic bytes
             raw = pack([(k, bytes(len(v))) for k, v in attrs], [(n_, bytes(len(d))) for n_, d in entries])
             content = list(raw)
@@ -215,7 +221,7 @@ def run(ctx):
     def key(oid):
         import re
         return lambda cid, v, rr: '%s:%s:%s' % (oid, v.get('kind'), re.sub(r'\d+', '#', v.get('msg', ''))[:80].replace(' ', '_'))
-    r = oblig.run('pbo.wellformed', [('wf', wellformed_case(m))], ctx, funcs, 'archives from an independent packer: 0-3 entries in sorted or reversed name order, sizes 0-2 with symbolic content bytes, two properties one with a symbolic 2-byte value', assumptions=assume, case_timeout=1800, keyfn=key('pbo.wellformed'), step_limit=400_000_000,
+    r = oblig.run('pbo.wellformed', [('wf', wellformed_case(m))], ctx, funcs, 'archives from an independent packer: 0-3 entries in sorted or reversed name order, sizes 0-2 with symbolic content bytes, two properties one with a symbolic 2-byte value; one entry name or one extra property value of length 255 / 256 / 257 / 511 / 512 / 513 / 600 / 769 (selector)', assumptions=assume, case_timeout=1800, keyfn=key('pbo.wellformed'), step_limit=400_000_000,
                   sample_fn=lambda rr: dict(archive=rr.get('text')) if rr.get('text') else None)
     if r:
         ob, recs = r
